@@ -290,3 +290,33 @@ def c01_family(thorough: bool) -> list[str]:
             seen.add(p)
             out.append(p)
     return out
+
+
+# ---- nested loops (C02's corpus): every pair of loop kinds, the inner loop placed directly / in an if / in an else / in a case of the outer
+# loop's body, exits of the outer loop before / after the inner loop, inner loop with break_loop / continue / neither
+def loop(kind, body, n):
+    if kind == "forever": return f"forever {{ {body} }}"
+    if kind == "while": return f"while ($L{n} == {n}) {{ {body} }}"
+    if kind == "whilenot": return f"while not ($L{n} == {n}) {{ {body} }}"
+    return f"for ($I{n} = 0; $I{n} < {n}; $I{n} += 1;) {{ {body} }}"
+
+def loop_nests() -> list[str]:
+    out = []
+    k = 0
+    for outer, inner in itertools.product(["forever", "while", "for", "whilenot"], ["forever", "while", "for"]):
+        for place in ("direct", "in-if", "in-else", "in-case"):
+            for oexit in ("none", "before", "after", "both"):
+                for iexit in ("break", "continue", "plain"):
+                    if outer == "forever" and oexit == "none":
+                        continue
+                    k += 1
+                    ib = {"break": f"c{k}(); if ($Y == {k}) {{ break_loop; }} d{k}();", "continue": f"c{k}(); if ($Y == {k}) {{ continue; }} d{k}();"
+                          + (f" if ($Y2 == {k}) {{ break_loop; }}" if inner == "forever" else ""), "plain": f"c{k}();" + (f" if ($Y2 == {k}) {{ break_loop; }}" if inner == "forever" else "")}[iexit]
+                    il = loop(inner, ib, k + 1000)
+                    mid = {"direct": il, "in-if": f"if ($Q == {k}) {{ {il} e{k}(); }}", "in-else": f"if ($Q == {k}) {{ x{k}(); }} else {{ {il} }}",
+                           "in-case": f"switch ($S) {{ case 1: {il} break; default: y{k}(); break; }}"}[place]
+                    ex = f"if ($Z == {k}) {{ break_loop; }}"
+                    body = f"b{k}(); " + (ex + " " if oexit in ("before", "both") else "") + mid + f" g{k}(); " + (ex + " " if oexit in ("after", "both") else "") + f"h{k}();"
+                    out.append(f"def 0 {{ a{k}(); {loop(outer, body, k)} f{k}(); end; }}")
+    return out
+
